@@ -604,9 +604,9 @@ PROPS["C12"] = dict(
 PROPS["C07"] = dict(
     units={"pmwm": dict(src=["harness/C07_parallel_merge.cpp"], tlx=["tlx/algorithm/parallel_multiway_merge.cpp"])},
     quick=[
-        R("pmwm", "plain", 6, 400),
-        R("pmwm", "asan", 6, 100),
-        R("pmwm", "tsan", 4, 50, timeout=600),
+        R("pmwm", "plain", 6, 400, timeout=300),
+        R("pmwm", "asan", 6, 100, timeout=300),
+        R("pmwm", "tsan", 4, 50, timeout=300),
     ],
     thorough=[
         R("pmwm", "plain", 16, 3000, timeout=7200),
@@ -635,12 +635,15 @@ PROPS["C07"] = dict(
 
 # ----------------------------------------------------------------------------- C06
 PROPS["C06"] = dict(
-    units={"pms": dict(src=["harness/C06_parallel_mergesort.cpp"], tlx=["tlx/algorithm/parallel_multiway_merge.cpp"])},
+    units={"pms": dict(src=["harness/C06_parallel_mergesort.cpp"], tlx=["tlx/algorithm/parallel_multiway_merge.cpp"]),
+           "pms_sched": dict(src=["harness/C06_parallel_mergesort.cpp"], tlx=["tlx/algorithm/parallel_multiway_merge.cpp"],
+                             flags=_SCHED_FLAGS)},
     quick=[
-        R("pms", "asan", 6, 25),
-        R("pms", "plain", 4, 60),
-        R("pms", "tsan", 4, 10, ["tracked_every=8"], timeout=600),
-        R("pms", "plain", 2, 2, ["big=1"]),
+        R("pms", "asan", 6, 25, timeout=300),
+        R("pms", "plain", 4, 60, timeout=300),
+        R("pms", "tsan", 4, 10, ["tracked_every=8"], timeout=300),
+        R("pms", "plain", 2, 2, ["big=1"], timeout=300),
+        R("pms_sched", "plain", 4, 25, ["mode=serial"], timeout=300),
     ],
     thorough=[
         R("pms", "asan", 16, 1500, timeout=7200),
@@ -648,6 +651,8 @@ PROPS["C06"] = dict(
         R("pms", "tsan", 8, 500, ["tracked_every=8"], timeout=7200),
         R("pms", "plain", 8, 40, ["big=1"], timeout=7200),
         R("pms", "tsan", 4, 6, ["big=1"], timeout=7200),
+        R("pms_sched", "plain", 8, 1500, ["mode=serial"], timeout=7200),
+        R("pms_sched", "asan", 4, 200, ["mode=serial"], timeout=7200),
     ],
     rule="a case = 40 sorts (big=1: 3 sorts of 20000..300000 elements). A sort = n in 0..300 (dense, so n < threads and n "
          "not divisible by threads occur constantly) or 1000..5000, key multiset {all equal, 2-4 distinct keys, sorted, "
@@ -656,9 +661,12 @@ PROPS["C06"] = dict(
          "records or heap-owning ledger-registered Tracked elements in an array of exactly n elements. Stable: exact "
          "equality with std::stable_sort; unstable: sorted and the (key,index) multiset unchanged; Tracked: ledger.live "
          "unchanged by the call, no copy from / assignment to dead storage, nothing alive after the array is gone, LSan "
-         "at exit; TSan for races (mostly trivial elements there: the ledger's own lock would hide races). Classes: "
+         "at exit; TSan for races (mostly trivial elements there: the ledger's own lock would hide races). The pms_sched unit runs "
+         "the same sorts with the sort's threads and mutex barrier on the dsched shims under controlled schedules, "
+         "where a thread that never arrives at a barrier is an exact deadlock report. Classes: "
          "(stable, element type, splitting, thread class, size class, key shape).",
-    require=dict(any=["sorts", "sorts_with_n_below_threads", "sorts_with_n_not_divisible", "sorts_with_heap_owning_elements"]),
+    require=dict(any=["sorts", "sorts_with_n_below_threads", "sorts_with_n_not_divisible", "sorts_with_heap_owning_elements",
+                      "controlled_schedules"]),
     assumptions=["std::stable_sort is the reference arrangement", "real OS scheduling only: the threads synchronise through the "
                  "mutex barrier alone (its interleavings are explored under C11), so TSan on real executions is the race "
                  "monitor; a wall-clock watchdog is inconclusive", SAN_ASSUME],
